@@ -93,6 +93,18 @@ CHECKS.update({
                     "SQLite save/load tuples compared field by field; RL scheduler kind exercised (listed known finding). "
                     "Rediscovered and fixed: CSV float parsing, stale HDF5 series, empty-history dtypes, unsaved last batch, id table.",
             "note": "fitted third-party estimators compared by class only; NaN payloads ignored."},
+    "C05": {"category": "exploration", "technique": PBT + "-sampled configurations x exhaustive enumeration of cut patterns, differential against an uninterrupted twin",
+            "text": "For every drawn round-robin configuration (all nine samplers, five losses) every one of the 3^(n-1) cut patterns "
+                    "(no cut / second calibrate() / checkpoint+restore per boundary) for n <= 4 (quick) or 5 (thorough), and drawn "
+                    "patterns up to n = 8, must reproduce the uninterrupted history and return value byte for byte.",
+            "note": "exhaustive over cut patterns per configuration only; configurations are sampled; RL excluded (see assumptions)."},
+    "C06": {"category": "fault_enumeration", "technique": "fault injection enumerated completely per generated scenario: process death (fork + os._exit) and exceptions (sys.settrace) at every line event of the real save functions, plus byte-level truncation of the file being written; PBT draws the scenarios",
+            "text": "For each drawn (configuration, k, previous checkpoint or none): the real save of both back-ends is killed at every "
+                    "statement, every file changed by a statement is additionally cut at every byte (thorough) / 128 offsets (quick), "
+                    "and the SQLite save gets an exception at every statement; every resulting folder is restored and must raise or "
+                    "equal the previous or the new checkpoint exactly (SQLite exception: must still load). Rediscovered and fixed the "
+                    "SQLite DELETE auto-commit and the JSON multi-file hybrid.",
+            "note": "statement-level death + byte truncation; no model of reordered or torn writes below the file API."},
 })
 NOT_APPLICABLE = {p: "check not built yet in this session (design in DESIGN.md section 3); will be claimed once its harness exists"
                   for p in ALL if p not in CHECKS}
